@@ -1695,7 +1695,22 @@ impl<'t> Cloner<'t> {
                 Ok(_) => unreachable!(),
                 Err(mut new_array) => {
                     match new_array.repr() {
-                        Repr::Byte | Repr::Int | Repr::Float | Repr::String => Ok(()),
+                        Repr::Byte | Repr::Int | Repr::Float => Ok(()),
+                        // The elements are pointers into the heap the array came from: they
+                        // must be cloned (or shared, if the receiver may hold them) like any
+                        // other pointer
+                        Repr::String => {
+                            let receiver_generation = self.receiver_generation;
+                            deep_clone_elems(&mut new_array, |e: &GcStr| {
+                                if receiver_generation.can_contain_values_from(e.generation()) {
+                                    return Ok(e.clone_unrooted());
+                                }
+                                match self.deep_clone_str(e)? {
+                                    String(s) => Ok(s),
+                                    _ => unreachable!(),
+                                }
+                            })
+                        }
                         Repr::Array => {
                             deep_clone_elems(&mut new_array, |e| self.deep_clone_array(e))
                         }
